@@ -23,6 +23,7 @@ type atom struct {
 	konst  string // constant compared with (ExactString), "nil" for nil tests, "true" for boolean subjects
 	neg    bool
 	opaque bool
+	v      ssa.Value // the condition value (for classification by callers)
 }
 
 func (a atom) String() string {
@@ -61,7 +62,12 @@ func constKey(c *ssa.Const) string {
 	return c.Value.ExactString()
 }
 
-func decomposeCond(v ssa.Value) (atom, bool) {
+func decomposeCond(v ssa.Value) (a atom, ok bool) {
+	defer func() {
+		if a.v == nil {
+			a.v = v
+		}
+	}()
 	switch x := v.(type) {
 	case *ssa.UnOp:
 		if x.Op == token.NOT {
